@@ -290,7 +290,10 @@ def run_mech_impl(mech, calls, fault=None, use_foreach=False, base_exception=Fal
         return decorated[i](*args, limit=py_limit(lim), **kw)
 
     for i in range(len(states)):
-        fs[i] = make(i)
+        # "cb_of": j - this mechanic is the SAME Python callback as mechanic j (same table), used with
+        # another sentinel (foreach(f, ..., sentinel=a) and later foreach(f, ..., sentinel=b))
+        j = states[i].get("cb_of")
+        fs[i] = fs[j] if j is not None else make(i)
     out = []
     for st, lim in calls:
         try:
